@@ -27,8 +27,8 @@ enum { K_LETTERS, K_PRIV, K_SPOOF, K_ROUTE, K_VACK, K_REFUSED, K_LOGINS, K_TUNW,
 
 /* ---------------------------------------------------------------- alphabet */
 enum { L_V, L_VBAD, L_LOGIN, L_I, L_S, L_O, L_N, L_R, L_P, L_DATA, L_RAWLOGIN, L_RAWDATA, L_RAWPING, L_Z, L_TUN, L_TIME };
-enum { HK_CUR, HK_PREV, HK_OTHER, HK_PLUS1, HK_WRONG, HK_SHORT };
-enum { RK_PLUS1, RK_PLAIN, RK_WRONG };
+enum { HK_CUR, HK_PREV, HK_OTHER, HK_PLUS1, HK_WRONG, HK_SHORT, HK_LASTONLY, HK_FIRSTONLY, HK_ALLBUTLAST, HK_ALLBUTFIRST };
+enum { RK_PLUS1, RK_PLAIN, RK_WRONG, RK_LASTONLY, RK_ALLBUTLAST };
 enum { SRC_A, SRC_B, SRC_C6, NSRC };
 typedef struct letter { int kind, src, u, arg; char name[48]; } letter;
 static letter LT[200]; static int nlt;
@@ -48,14 +48,16 @@ static void addl(int kind, int src, int u, int arg, const char *fmt, ...)
 
 static void mk_alphabet(void)
 {
-	static const char *HKN[] = { "cur", "prev", "other", "cur+1", "wrong", "short" };
-	static const char *RKN[] = { "cur+1", "cur", "wrong" };
+	static const char *HKN[] = { "cur", "prev", "other", "cur+1", "wrong", "short", "only-last-byte-right", "only-first-byte-right", "all-but-last-byte-right", "all-but-first-byte-right" };
+	static const char *RKN[] = { "cur+1", "cur", "wrong", "only-last-byte-right", "all-but-last-byte-right" };
 	for (int s = 0; s < 2; s++) addl(L_V, s, -1, 0, "V(%s)", SRCN[s]);
 	if (is03) addl(L_VBAD, SRC_A, -1, 0, "Vbad(A)");
 	for (int s = 0; s < 2; s++) for (int u = 0; u < 2; u++) {
 		int nhk = is03 ? 5 : 1;
 		for (int hk = 0; hk < nhk; hk++) addl(L_LOGIN, s, u, hk, "L(%s,u%d,%s)", SRCN[s], u, HKN[hk]);
 		if (is04) addl(L_LOGIN, s, u, HK_WRONG, "L(%s,u%d,wrong)", SRCN[s], u);
+		/* responses that agree with the right one in some byte positions only */
+		if (is03) for (int hk = HK_LASTONLY; hk <= HK_ALLBUTFIRST; hk++) addl(L_LOGIN, s, u, hk, "L(%s,u%d,%s)", SRCN[s], u, HKN[hk]);
 	}
 	if (is03) {
 		addl(L_LOGIN, SRC_A, 5, HK_WRONG, "L(A,u5,wrong)");
@@ -76,6 +78,7 @@ static void mk_alphabet(void)
 	if (is03) addl(L_I, SRC_A, 5, 0, "I(A,u5)");
 	for (int s = 0; s < 2; s++) for (int u = 0; u < 2; u++) {
 		for (int rk = 0; rk < (is03 ? 3 : 2); rk++) addl(L_RAWLOGIN, s, u, rk == 1 && is04 ? RK_WRONG : rk, "rawLOGIN(%s,u%d,%s)", SRCN[s], u, RKN[rk == 1 && is04 ? RK_WRONG : rk]);
+		if (is03) for (int rk = RK_LASTONLY; rk <= RK_ALLBUTLAST; rk++) addl(L_RAWLOGIN, s, u, rk, "rawLOGIN(%s,u%d,%s)", SRCN[s], u, RKN[rk]);
 		addl(L_RAWDATA, s, u, -1, "rawDATA(%s,u%d)", SRCN[s], u);
 		addl(L_RAWPING, s, u, 0, "rawPING(%s,u%d)", SRCN[s], u);
 	}
@@ -180,7 +183,7 @@ static int apply(int li)
 	long t_now = now_s();
 
 	/* which letters are enabled */
-	if (L->kind == L_LOGIN && (L->arg == HK_CUR || L->arg == HK_PLUS1) && !(u < NS && M.alloc[u])) return 1;
+	if (L->kind == L_LOGIN && (L->arg == HK_CUR || L->arg == HK_PLUS1 || L->arg >= HK_LASTONLY) && !(u < NS && M.alloc[u])) return 1;
 	if (L->kind == L_LOGIN && L->arg == HK_PREV && !(u < NS && M.alloc[u] && M.hasprev[u])) return 1;
 	if (L->kind == L_LOGIN && L->arg == HK_OTHER && !(u < NS && M.alloc[u] && M.alloc[1 - u])) return 1;
 	if (L->kind == L_RAWLOGIN && L->arg != RK_WRONG && !(u < NS && M.alloc[u])) return 1;
@@ -211,6 +214,10 @@ static int apply(int li)
 		case HK_PREV: ref_login(pw32, M.prev[u], h); break;
 		case HK_OTHER: ref_login(pw32, M.cur[1 - u], h); break;
 		case HK_PLUS1: ref_login(pw32, ch + 1, h); break;
+		case HK_LASTONLY: { uint8_t r[16]; ref_login(pw32, ch, r); memset(h, 0x5a, 16); h[15] = r[15]; if (h[0] == r[0]) h[0] ^= 1; break; }
+		case HK_FIRSTONLY: { uint8_t r[16]; ref_login(pw32, ch, r); memset(h, 0x5a, 16); h[0] = r[0]; if (h[15] == r[15]) h[15] ^= 1; break; }
+		case HK_ALLBUTLAST: ref_login(pw32, ch, h); h[15] ^= 0x01; break;
+		case HK_ALLBUTFIRST: ref_login(pw32, ch, h); h[0] ^= 0x80; break;
 		default: memset(h, 0x5a, 16); break;
 		}
 		plen = tm_login(pkt, id, QT, u, h, L->arg == HK_SHORT ? 12 : 16, cmc, DOM);
@@ -240,7 +247,10 @@ static int apply(int li)
 	case L_RAWLOGIN: {
 		uint8_t h[16];
 		uint32_t ch = (u < NS && M.alloc[u]) ? M.cur[u] : 0x31337;
-		if (L->arg == RK_PLUS1) ref_login(pw32, ch + 1, h); else if (L->arg == RK_PLAIN) ref_login(pw32, ch, h); else memset(h, 0xa5, 16);
+		if (L->arg == RK_PLUS1) ref_login(pw32, ch + 1, h); else if (L->arg == RK_PLAIN) ref_login(pw32, ch, h);
+		else if (L->arg == RK_LASTONLY) { uint8_t r[16]; ref_login(pw32, ch + 1, r); memset(h, 0xa5, 16); h[15] = r[15]; }
+		else if (L->arg == RK_ALLBUTLAST) { ref_login(pw32, ch + 1, h); h[15] ^= 0x10; }
+		else memset(h, 0xa5, 16);
 		plen = tm_raw(pkt, 0x10, u, h, 16);
 		break;
 	}
